@@ -487,7 +487,28 @@ class Machine:
                 k_ = (hi - lo) // n          # full chunks not yet yielded: the remainder is what no chunk will ever cover
                 return ("aslice", cont, lo + k_ * n, hi)
         if c.local and self.P.fn_opt(nm) is not None and not nm.startswith("core::") and not re.match(r"^cryptoutil::(read|write)_u(32|64)v_(le|be)$", nm):
-            return self.call_fn(self.P.fn(nm), a)
+            callee = self.P.fn(nm)
+            # const generic arguments of this call bind the callee's parameters for the duration of the call
+            bind = {}
+            gl = callee.raw.get("generics", []) if hasattr(callee, "raw") else []
+            st_ty = callee.raw.get("self_ty") or "" if hasattr(callee, "raw") else ""
+            parent = [g[0] for g in gl if re.search(r"\b%s\b" % re.escape(g[0]), st_ty)]
+            order = parent + [g[0] for g in gl if g[0] not in parent]
+            for g, av in zip(order, c.res_ga or []):
+                if isinstance(av, str):
+                    m_ = re.match(r"^-?\d+", av)
+                    if m_:
+                        bind[g] = int(m_.group(0))
+                    elif av in self.generics:
+                        bind[g] = self.generics[av]
+            if bind:
+                saved = dict(self.generics)
+                self.generics.update(bind)
+                try:
+                    return self.call_fn(callee, a)
+                finally:
+                    self.generics = saved
+            return self.call_fn(callee, a)
         if re.search(r"slice::<impl \[T\]>::get_unchecked(_mut)?$", nm) or re.search(r"array::<impl \[T; N\]>::get_unchecked(_mut)?$", nm):
             x = a[0]
             if isinstance(x, tuple) and x and x[0] == "lref":
@@ -792,6 +813,12 @@ class Machine:
         if mm:
             cont, base, n = self.seq(a[0]) if not (isinstance(a[0], tuple) and a[0] and a[0][0] == "ptr") else (None, a[0][2], None)
             want = [int(x) for x in (c.ga or []) if isinstance(x, str) and re.match(r"^\d+$", x)]
+            if not want:
+                # `[u8; W]` with W a const parameter bound by the enclosing call
+                for x in (c.ga or []):
+                    mg = re.search(r"\[[ui]\d+; (\w+)\]", str(x))
+                    if mg and mg.group(1) in self.generics:
+                        want = [self.generics[mg.group(1)]]
             if not want:
                 mt = re.search(r"\[[ui]\d+; (\d+)\]", " ".join(str(x) for x in (c.ga or [])))
                 want = [int(mt.group(1))] if mt else []
